@@ -50,8 +50,14 @@ RowOK(c, r) ==
         rng == (r.n - 1)..(r.n + 1)
         rep == Regrid(ser, c.D, rng)
         sp == SumPos(rep, r.n, 1)          \* mean = sp[1] / (sp[2] * sp[3])
-    IN  /\ sp[3] >= 1
-        /\ Abs(r.v * sp[2] * sp[3] - sp[1] * c.K) <= c.tol * sp[2] * sp[3]
+    IN  \/ /\ sp[3] >= 1
+           /\ Abs(r.v * sp[2] * sp[3] - sp[1] * c.K) <= c.tol * sp[2] * sp[3]
+        \* where the grid step is not a binary fraction, a sample ON a grid line may fall
+        \* either side of it in floating point: the level is then (also) crossed AT that sample
+        \/ /\ c.grid.slack > 0
+           /\ \E k \in 1..Len(o.samples) :
+                 /\ Abs(o.samples[k][2] - r.n * c.D) <= c.grid.slack
+                 /\ Abs(r.v - o.samples[k][1] * c.K) <= c.tol
 
 Judge(c) ==
     /\ Chk(\A k \in 1..Len(c.members) : c.members[k] \in OwnerStarts(c), c,
@@ -62,9 +68,11 @@ Judge(c) ==
                 "C13 a crossing value is not the mean crossing position computed from the owner's own samples", k)
          /\ Chk(c.grid.lo <= c.rows[k].n /\ c.rows[k].n <= c.grid.hi, c, "C13 a curve level is outside the water-level grid", k)
     /\ Chk(c.grid.count = c.grid.hi - c.grid.lo + 1, c, "C13 the water-level grid has holes", 0)
-    /\ Chk(c.grid.lo * c.D <= c.grid.minp /\ c.grid.minp < (c.grid.lo + 1) * c.D, c,
+    \* c.grid.slack = 0 on exact lattices; 1 fixed-point unit where the grid step is not a
+    \* binary fraction (a level ON a grid line may then fall either side of it in floating point)
+    /\ Chk(c.grid.lo * c.D <= c.grid.minp + c.grid.slack /\ c.grid.minp - c.grid.slack < (c.grid.lo + 1) * c.D, c,
            "C13 the grid does not start at floor(min level / step)", 0)
-    /\ Chk(c.grid.hi * c.D < c.grid.maxp /\ c.grid.maxp <= (c.grid.hi + 1) * c.D, c,
+    /\ Chk(c.grid.hi * c.D < c.grid.maxp + c.grid.slack /\ c.grid.maxp - c.grid.slack <= (c.grid.hi + 1) * c.D, c,
            "C13 the grid does not end at ceil(max level / step) - 1", 0)
 
 Init == ci = 1 /\ ok = TRUE
